@@ -310,3 +310,65 @@ def r6_outside_is_transparent(ck, P):
                 ck.violation(R, f.name, 'bits or-ed into the merged sample', '%s combines the merged sample (0 when outside a non-repeating image) with further bits at %s: for alpha-less formats the outside becomes opaque black instead of transparent, so an opaque picture presented as x8r8g8b8 composites differently from the same picture as a8r8g8b8 with alpha 255' % (f.name, bad.loc()), bad.loc())
     if n == 0:
         ck.incomplete(R, 'no fetcher substitutes 0 for outside samples')
+
+
+def r9_solid_substitution_excludes_kernels(ck, P, rid='C09-R9'):
+    """T-GRD: a bits image is presented as the solid pseudo-format only when every sample of it equals its one pixel.  Under a filter whose
+    fetcher multiplies by caller-supplied coefficients (the kinds whose fetcher walks filter_params) a sample is the pixel times the sum of
+    the kernel, so the substitution is excluded for those kinds."""
+    from . import filt
+    from .. import consts
+    R = ck.rule(rid, 'in the flag computation, the path on which a BITS image receives the solid pseudo-format as its extended format code is guarded, for every filter kind whose pixel fetcher reads filter_params (convolution, separable convolution), by a test that image_common.filter is not that kind: a repeated single pixel under a kernel that does not sum to one is not that pixel', floor=2)
+    C = consts.fast_path_flags()
+    SOLID = C['PIXMAN_solid']
+    kinds = filt.param_reading_filter_kinds(P)
+    if not kinds:
+        raise AnalysisBroken('%s: no filter kind with a parameter-reading fetcher found' % rid)
+    from . import common
+    f = common.find_validate(P)
+    # the function that stores extended_format_code
+    g = None
+    for h in P.closure([f]):
+        if any(x.op == 'store' and h.last_field(h.path(x.a[1])) == 'image_common.extended_format_code' for x in h.insts()):
+            g = h
+    if g is None:
+        raise AnalysisBroken('%s: the function storing image_common.extended_format_code was not found' % rid)
+    ck.saw(g)
+    inv = {v: k for k, v in P.enum('pixman_filter_t').items()}
+    # edges on which the constant PIXMAN_solid enters a phi, from a block that is guarded by tests on bits_image.width / height (the BITS case)
+    sites = []
+    for x in g.insts():
+        if x.op != 'phi':
+            continue
+        for a, bb in zip(x.a, x.d['bb']):
+            if a[0] == 'c' and int(a[1]) & 0xffffffff == SOLID & 0xffffffff:
+                flds = set()
+                for t, s_ in g.guard_edges(bb):
+                    if t.a:
+                        flds |= {q[1] for q in g.atoms(t.a[0]) if q[0] == 'field'}
+                if 'bits_image.width' in flds or 'bits_image.height' in flds:
+                    sites.append((x, bb))
+    if not sites:
+        raise AnalysisBroken('%s: the substitution of the solid pseudo-format for a 1x1 bits image was not found in %s' % (rid, g.name))
+    for x, bb in sites:
+        excluded = set()
+        for t, s_ in g.guard_edges(bb):
+            if not t.a:
+                continue
+            if t.op == 'switch':
+                continue
+            c, p, ops = g.cond(t.a[0])
+            if c is None or c.op != 'icmp' or p not in ('eq', 'ne'):
+                continue
+            zs = [g.v(g.strip_casts(o)) for o in ops]
+            if not any(z is not None and z.op == 'load' and g.last_field(g.path(z.a[0])) == 'image_common.filter' for z in zs):
+                continue
+            ks = [int(o[1]) for o in ops if o[0] == 'c']
+            if ks and (p == 'ne') == (t.d['succ'][0] == s_):
+                excluded.add(ks[0])
+        for K, names in sorted(kinds.items()):
+            where = '%s: solid pseudo-format for a 1x1 repeating image, filter kind %s' % (g.name, inv.get(K, K))
+            if K in excluded:
+                ck.ok(R, where, 'excluded')
+            else:
+                ck.violation(R, g.name, 'solid substitution under %s' % inv.get(K, K), '%s presents a 1x1 repeating bits image as a solid colour also when its filter is %s, whose fetcher (%s) multiplies every sample by the coefficients in filter_params: with a kernel that does not sum to one (an edge-detection kernel sums to 0) the general path gives pixel * sum where the solid fast paths use the pixel itself' % (g.name, inv.get(K, K), ', '.join(sorted(names))), x.loc())
